@@ -3,6 +3,7 @@ import TinysetModel.Proofs.Tiny.Ascending
 import TinysetModel.Proofs.Consts
 import TinysetModel.Proofs.InlineSpec
 import TinysetModel.Proofs.Demo
+import TinysetModel.Proofs.TinySrc
 /-! C10 — small sets of small numbers live in one machine word with no heap memory.
 
 First part: the inline codec alone (`TinyC`, `Model/Tiny.lean`).  Second part: the same at the level of whole
@@ -146,6 +147,29 @@ theorem word_codec_is_the_source_u32 (t : T) (h : t.sz ≤ 7) (x : Nat) :
     Gen.tiny_to_usize_32 t.sz t.bits = toWord codec32 t ∧
     (⟨Gen.tiny_from_usize_sz_32 x, Gen.tiny_from_usize_bits_32 x⟩ : T) = ofWord codec32 x :=
   ⟨tiny_to_usize_32_eq t h, tiny_from_usize_32_eq x⟩
+
+/-! ### the constructor of the inline word IS the current source: `Tiny::new_sorted_deduped` (`setu64.rs`) / `Tiny::new`
+(`setu32.rs`) translated on every run (`Generated/Loops.lean`: the `zip` loop over values and widths, the `log_2`
+width test with its early `return None`, the `|`/`<<` packing) -/
+
+/-- for every vector of `u64` values the source's constructor refuses exactly when the model's does and otherwise
+builds the same count and payload — so `collect_is_inline_u64` and the budget table speak about the source's own
+packing code -/
+theorem inline_constructor_is_the_source_u64 (v : List Nat) (hv : ∀ x ∈ v, x < 2 ^ 64) :
+    Gen.tiny_new_64 v = (newSortedDeduped codec64 v).map (fun t => (t.sz, t.bits)) := SC.tiny_new_64_eq v hv
+/-- `SetU32` (`std`'s `sort`/`dedup` inside `Tiny::new` are a parameter: they leave the sorted duplicate-free vector
+that `from_iter` passes as it is) -/
+theorem inline_constructor_is_the_source_u32 (v : List Nat) (sd : List Nat → List Nat) (hsd : sd v = v)
+    (hv : ∀ x ∈ v, x < 2 ^ 32) :
+    Gen.tiny_new_32 v sd = (newSortedDeduped codec32 v).map (fun t => (t.sz, t.bits)) := SC.tiny_new_32_eq v sd hsd hv
+/-- `Tiny::from_singleton` (the first insert into an empty set) as translated is the constructor at a one-element
+vector, which is how the model's `insert` writes it -/
+theorem inline_singleton_is_the_source (x : Nat) :
+    (x < 2 ^ 64 → Gen.tiny_from_singleton_64 x = (newSortedDeduped codec64 [x]).map (fun t => (t.sz, t.bits))) ∧
+    (x < 2 ^ 32 → Gen.tiny_from_singleton_32 x = (newSortedDeduped codec32 [x]).map (fun t => (t.sz, t.bits))) :=
+  ⟨SC.tiny_from_singleton_64_eq x, SC.tiny_from_singleton_32_eq x⟩
+/-- not vacuous: {3, 10} is packed as 3 + 2^40 * 6; a first value of 2^61 is refused -/
+example : Gen.tiny_new_64 [3, 10] = some (2, 3 + 2 ^ 40 * 6) ∧ Gen.tiny_new_64 [2 ^ 61] = none := by decide
 
 end C10
 
